@@ -138,6 +138,9 @@ FIXED = [
   [(None, ("mod", "pow", [[(None, ("leaf", "as.polynomial", [101.0, 102.0]))], [(None, ("leaf", "as.constant", [103.0]))]]))],
   [(None, ("mod", "trans", [[(None, ("leaf", "as.buck", [101.0, 102.0, 103.0]))], [(None, ("leaf", "as.constant", [104.0]))]]))],
   [(None, ("mod", "sum", [[(None, ("leaf", "as.constant", [101.0]))], [(None, ("leaf", "as.constant", [102.0]))], [(None, ("leaf", "as.lj", [103.0, 104.0]))]]))],
+  # trans() of definitions that themselves begin with as.constant (the shift is the SECOND argument)
+  [(None, ("mod", "trans", [[(None, ("leaf", "as.constant", [101.0]))], [(None, ("leaf", "as.constant", [102.0]))]]))],
+  [(None, ("mod", "trans", [[(None, ("leaf", "as.constant", [101.0])), ((">=", 1.0), ("leaf", "as.buck", [102.0, 103.0, 104.0]))], [(None, ("leaf", "as.constant", [105.0]))]]))],
   [((">=", 0.0), ("leaf", "as.constant", [101.0])), ((">", 1.5), ("mod", "product", [[(None, ("leaf", "as.constant", [102.0]))], [((">", 2.0), ("leaf", "as.polynomial", [103.0, 104.0]))]]))],
   [(None, ("mod", "sum", [[(None, ("mod", "product", [[(None, ("leaf", "as.constant", [101.0]))], [(None, ("leaf", "as.bornmayer", [102.0, 103.0]))]]))],
                           [((">", 1.0), ("mod", "trans", [[(None, ("leaf", "as.polynomial", [104.0, 105.0, 106.0]))], [(None, ("leaf", "as.constant", [107.0]))]]))]]))],
